@@ -240,6 +240,7 @@ def is_builtin_structure(val):
         (
             symbols._DeviceLogicType,
             symbols._DevicesLogicType,
+            symbols._DevicesSlotType,
             symbols._GenericStructures,
             symbols._GenericStructure,
             types._BaseStructure,
